@@ -5,6 +5,7 @@ import typed
 
 ID = "C07"
 THEOREMS = ["fill_matches_bind", "fillLoop_tail", "fillLoop_skip", "fill_missing_required", "operators_untouched", "findKeyword_eq"]
+LEANCHECKER_MODULES = ["Fadl.Props.C07"]  # re-checked by leanchecker in the thorough tier
 RULE = (
     "generated class models (gen/classes.py: Trk, Cal, Jet, Vec[T](Iterable[T]), JVec(Vec[Jet]), Evt, an optional registered "
     "collection class, two registered functions; 0-4 parameters per method with a random suffix of defaults of int/float/"
